@@ -320,6 +320,7 @@ def units(tier):
          uid="C19.phase_init.redefined_gas_starts_without_cached_EOS_parameters"))
     wrap("C19.calc_gas_pressures.EOS_at_gas_phase_pressure", MM.unit_fixed_pressure_call)
     wrap("C19.calc_gas_binary_parameter.built_in_table_symmetric", MM.unit_builtin_kij_table_symmetric)
+    wrap("C19.calc_gas_pressures.fixed_volume_molar_volume_not_clamped_inside_the_pressure_range", MM.unit_fixed_volume_molar_volume)
     wrap("C19.adjust_setup_pure_phases.gas_target_is_logP_plus_log_phi_on_every_path", MM.unit_pp_gas_si)
     return us
 
